@@ -224,6 +224,12 @@ def bindStep (l toSec : Nat) (toOff : BitVec 64) (acc : Acc) (f : Fixup) : Acc :
       | some buf' => { acc with secs := setBuf acc.secs toSec buf', resolved := acc.resolved + 1 }
       | none => { acc with kept := acc.kept ++ [{ f with lr := some l }], err := .invalidDisplacement }
 
+/-- `encode_offset32/64` accepts the displacement for this format (the validation loop of the repaired `bind_label`) -/
+def encodableDisp (f : OffsetFormat) (d : BitVec 64) : Bool :=
+  if f.valueSize = 8 then (encodeOffset64 f d).isSome
+  else if f.valueSize = 1 ∨ f.valueSize = 2 ∨ f.valueSize = 4 then (encodeOffset32 f d).isSome
+  else false
+
 /-- `CodeHolder::bind_label(label, to_section_id, to_offset)` -/
 def bindLabel (s : State) (l toSec : Nat) (toOff : BitVec 64) : State × Err :=
   match s.labels[l]? with
@@ -233,6 +239,10 @@ def bindLabel (s : State) (l toSec : Nat) (toOff : BitVec 64) : State × Err :=
     match le with
     | .bound _ _ => (s, .labelAlreadyBound)
     | .unbound fx =>
+      -- (as repaired upstream) validate first: a pending same-section fixup whose displacement cannot be encoded makes
+      -- bind_label fail *before* anything is modified - the label stays unbound
+      if fx.any (fun f => f.lr.isNone && f.sec == toSec &&
+          !encodableDisp f.fmt (toOff - BitVec.ofNat 64 f.offset + f.rel)) then (s, .invalidDisplacement) else
       let acc := fx.foldl (bindStep l toSec toOff) { secs := s.secs, relocs := s.relocs, kept := [], resolved := 0, err := .ok }
       ({ s with labels := s.labels.set l (.bound toSec toOff), secs := acc.secs, relocs := acc.relocs,
                 fixups := acc.kept ++ s.fixups, count := s.count - acc.resolved }, acc.err)
